@@ -23,7 +23,9 @@ CLAIM = {
             "directions the watch set inserts one list of the listener's (adds, removes) result before it drops the "
             "other (roles: connect inserts adds/drops removes/remembers removes as seen, disconnect the reverse), so "
             "an outpoint created and spent inside one block nets out; (R14.8) both streamed block-end callbacks take "
-            "the per-block decode state on every exit. Does not decide "
+            "the per-block decode state on every exit; (R14.9) a restart re-registers each ready channel's monitor "
+            "with the stored ListenSlot as one value (restore_listener), never with a freshly built slot, before the "
+            "channel is published. Does not decide "
             "equality with a fresh replay over all block histories nor general panic-freedom.",
     "note": "rustc MIR; symmetry is compared per match arm over field writes, mutator calls and Vec::push sites "
             "including closures called from the arm",
@@ -52,6 +54,7 @@ def run(ctx):
     r146(ctx)
     r147(ctx)
     r148(ctx)
+    r149(ctx)
 
 
 def arms(ctx, body, variants):
@@ -461,3 +464,57 @@ def r148(ctx):
                f"is matched against the transactions of a later streamed block and the result depends on history, not on the block",
                where=f"{b.file}:{b.line}", sample="every return passes decode_state.take()")
     ctx.floor("R14.8", "streamed block-end callbacks of ChainMonitor", n, 2)
+
+
+def r149(ctx):
+    ctx.rule("R14.9", "restart keeps each monitor's watch bookkeeping whole: Node::new_from_persistence re-registers a ready "
+                      "channel's monitor with ChainTracker::restore_listener and the stored ListenSlot as one value (watches, "
+                      "txid watches and the already-seen outpoints), not with a freshly built slot")
+    p = ctx.prog
+    b = p.fn(LS + "node::Node::new_from_persistence")
+    bodies = [b] + p.closures_of(b)
+    rl, fresh = [], []
+    for bb in bodies:
+        bv = fnview(ctx, bb)
+        for bi, c in bb.calls():
+            nm = c.callee.name if c.callee else ""
+            if nm.endswith("ChainTracker::<L>::restore_listener"):
+                rl.append((bb, bv, bi, c))
+            elif nm.endswith("ChainTracker::<L>::add_listener") or nm.endswith("ChainTracker::<L>::add_listener_watches"):
+                fresh.append((bb, c))
+    ctx.ob("R14.9", len(rl) >= 1, f"{b.name}/restores-listener", "new_from_persistence no longer re-registers the stored "
+           "listener slot (restore_listener): the monitor's seen-outpoint set is lost at restart, a later disconnect of a "
+           "block that spent a watched outpoint is not undone", where=f"{b.file}:{b.line}", sample="restore_listener(outpoint, monitor, stored slot)")
+    ctx.ob("R14.9", not fresh, f"{b.name}/no-fresh-slot",
+           f"new_from_persistence registers a monitor with a freshly built slot ({fresh[0][1].callee.name.rsplit('::', 1)[-1] if fresh else ''}"
+           f", line {fresh[0][1].line if fresh else 0}): watches are re-armed but the stored seen set is dropped",
+           where=f"{b.file}:{fresh[0][1].line if fresh else b.line}", sample="no add_listener on the restore path")
+    for bb, bv, bi, c in rl:
+        e = bv.expr(c.args[3]) if len(c.args) > 3 else ("opaque", "?")
+        whole = R.mentions_call(e, "remove") and not any(x[0] == "field" and x[2].endswith("ListenSlot") for x in subexprs(e))
+        ctx.ob("R14.9", whole, f"{b.name}/slot-whole", f"restore_listener receives `{render(e)[:120]}` (expected the stored slot "
+               "taken from the persisted listener map as one value)", where=f"{bb.file}:{c.line}", sample=render(e)[:80])
+    # the monitor itself is rebuilt from the stored state of the same listener entry
+    nmb = 0
+    for bb in bodies:
+        bv = fnview(ctx, bb)
+        for bi, c in bb.calls():
+            if c.callee and c.callee.name.endswith("ChainMonitorBase::new_from_persistence") and len(c.args) >= 2:
+                nmb += 1
+                e = bv.expr(c.args[1])
+                ctx.ob("R14.9", R.mentions_call(e, "remove") and "listener" in render(e), f"{b.name}/monitor-state-stored",
+                       f"the restored monitor is built from `{render(e)[:120]}` (expected the state stored with the tracker's "
+                       "listener entry)", where=f"{bb.file}:{c.line}", sample=render(e)[:80])
+    ctx.floor("R14.9", "ChainMonitorBase::new_from_persistence calls on the restore path", nmb, 1)
+    # every restored ready channel passes restore_listener before it is published in the channel map
+    for bb in bodies:
+        bv = fnview(ctx, bb)
+        cons = [bi for (x, bi, si, st) in R.constructions(p, LS + "channel::Channel") if x is bb]
+        rlb = {bi for (x, _, bi, _) in rl if x is bb}
+        for cb in cons:
+            ins = [bi for bi, c in bb.calls() if c.callee and c.callee.name.endswith("::insert") and bi in bv.reach(cb)
+                   and "channels" in render(bv.named().expr(c.args[0]))]
+            esc = [bi for bi in ins if bi in bv.reach(cb, cut_nodes=rlb)]
+            ctx.ob("R14.9", bool(rlb) and not esc, f"{b.name}/ready-channel-needs-listener",
+                   "a restored ready channel can be published without its monitor having been re-registered with the stored slot",
+                   where=f"{bb.file}:{bb.term(esc[0]).line if esc else bb.line}", sample="channels.insert dominated by restore_listener")
